@@ -212,6 +212,8 @@ pub fn run(ctx: &Ctx) -> Report {
             targets.push((MAXP as i64 + d) as usize);
         }
         targets.push(MAXP + 300);
+        // k = 2, d = 0: the last write_all chunk is exactly one full packet starting on an empty buffer
+        targets.push(2 * MAXP);
         if ctx.thorough {
             for &d in &ds {
                 targets.push((2 * MAXP as i64 + d) as usize);
@@ -221,10 +223,10 @@ pub fn run(ctx: &Ctx) -> Report {
         }
         let mut cases: Vec<(usize, Asm, bool, usize)> = Vec::new();
         for (ti, &t) in targets.iter().enumerate() {
-            let asms: Vec<Asm> = if ctx.thorough { vec![Asm::OneCell, Asm::MiBCells, Asm::SmallThenGiant, Asm::GiantThenSmall] } else { vec![[Asm::OneCell, Asm::MiBCells, Asm::GiantThenSmall][ti % 3], Asm::SmallThenGiant] };
+            let asms: Vec<Asm> = if ctx.thorough { vec![Asm::OneCell, Asm::MiBCells, Asm::SmallThenGiant, Asm::GiantThenSmall] } else if t == 2 * MAXP { vec![Asm::OneCell, Asm::MiBCells] } else { vec![[Asm::OneCell, Asm::MiBCells, Asm::GiantThenSmall][ti % 3], Asm::SmallThenGiant] };
             for a in asms {
                 for bin in [false, true] {
-                    if !ctx.thorough && bin != (ti % 2 == 0) && a != Asm::SmallThenGiant {
+                    if !ctx.thorough && bin != (ti % 2 == 0) && a != Asm::SmallThenGiant && t != 2 * MAXP {
                         continue;
                     }
                     let wl = if (ti + bin as usize) % 3 == 0 { 65_536 } else { usize::MAX };
